@@ -158,6 +158,35 @@ CATALOGUE['C08'] = [
                 d[name] = expr(md)
         return render_blocks(self.section, md, encoding=self.encoding)""",
       'C08.R1'),
+    V('flag helper (push through a callable) reports 0 after pushing',
+      'DT_In.py',
+      """                if no_push_item:
+                    pushed = 0
+                elif mapping:
+                    pushed = 1
+                    push(client)
+                elif t in StringTypes:
+                    pushed = 0
+                else:
+                    pushed = 1
+                    push(InstanceDict(client, md))
+""",
+      """                pushed = push_client(push, md, client, t,
+                                     no_push_item, mapping)
+""", 'C08.R1', 1,
+      (("class InFactory:", """def push_client(push, md, client, t, no_push_item, mapping):
+    if no_push_item:
+        return 0
+    if mapping:
+        push(client)
+        return 0
+    if t in StringTypes:
+        return 0
+    push(InstanceDict(client, md))
+    return 1
+
+
+class InFactory:"""),)),
     V('silent: hoist benign statement between push and try', 'DT_Let.py',
       """        md._push(d)
         try:""",
